@@ -424,6 +424,89 @@ def rule_perm(ctx) -> None:
     ctx.check(okh, "C11.PERM", f"{h.qual}/returns-reordered-input", h.loc(), "every return of the hybrid reranker is built from `items` (reordered head + preserved tail)", "the hybrid reranker returns a list not built from its input")
 
 
+def _complement_of(rd, node, tail_e: ast.AST, head_name: str) -> Optional[str]:
+    """None if `tail_e` is `[x for x in U if x not in S]` over the WHOLE of a named universe U with S = set(head)/head;
+    else the reason it is not"""
+    if not isinstance(tail_e, ast.ListComp) or len(tail_e.generators) != 1:
+        return f"the tail `{src(tail_e)[:50]}` is not a single filter over the baseline order"
+    g = tail_e.generators[0]
+    if not (isinstance(tail_e.elt, ast.Name) and isinstance(g.target, ast.Name) and tail_e.elt.id == g.target.id):
+        return "the tail comprehension transforms its elements"
+    if not isinstance(g.iter, ast.Name):
+        return f"the tail filters `{src(g.iter)[:30]}`, not the whole baseline order (a slice leaves part of it unfiltered)"
+    if len(g.ifs) != 1:
+        return "the tail comprehension does not have exactly one membership filter"
+    t = g.ifs[0]
+    if not (isinstance(t, ast.Compare) and len(t.ops) == 1 and isinstance(t.ops[0], ast.NotIn) and isinstance(t.left, ast.Name) and t.left.id == g.target.id and isinstance(t.comparators[0], ast.Name)):
+        return f"the tail filter `{src(t)[:40]}` is not `x not in <picked>`"
+    sname = t.comparators[0].id
+    if sname != head_name:
+        ok = False
+        for d in rd.reaching(sname, node):
+            v = d.value
+            if d.kind == "assign" and isinstance(v, ast.Call) and dotted(v.func) in ("set", "frozenset", "list", "tuple") and v.args and isinstance(v.args[0], ast.Name) and v.args[0].id == head_name:
+                ok = True
+            elif d.kind != "mutate":
+                return f"`{sname}` is not set({head_name})"
+        if not ok:
+            return f"`{sname}` is not set({head_name})"
+    return None
+
+
+def rule_perm_partition(ctx) -> None:
+    """head + tail constructions of the rerank layers are partitions of their input: the tail is the complement of the
+    head over the whole baseline order (MMR), or head and tail are the two sides of one slice bound (hybrid)"""
+    f = ctx.func("clematis.engine.stages.t2.quality_mmr:mmr_reorder_full")
+    cfg = ctx.cfg(f)
+    rd = ctx.rd(f)
+    rets = [n for n in cfg.nodes if n.kind == "stmt" and isinstance(n.ast, ast.Return) and n.ast.value is not None and n in cfg.reachable_from_entry()]
+    ctx.floor("C11.PERM", "returns of mmr_reorder_full", len(rets), 1)
+    for n in rets:
+        v = n.ast.value
+        why = None
+        if not (isinstance(v, ast.BinOp) and isinstance(v.op, ast.Add) and isinstance(v.left, ast.Name)):
+            why = f"returns `{src(v)[:50]}`, not head + complement-tail"
+        else:
+            tail_e = v.right
+            if isinstance(tail_e, ast.Name):
+                uv = rd.unique_value(tail_e.id, n)
+                if uv is None:
+                    why = f"`{tail_e.id}` has no single definition"
+                else:
+                    why = _complement_of(rd, uv[1], uv[0], v.left.id)
+            else:
+                why = _complement_of(rd, n, tail_e, v.left.id)
+            # the head itself: the MMR selection (distinct by construction: selected.append(best) + remaining.remove(best))
+            hv = rd.unique_value(v.left.id, n)
+            if why is None and not (hv is not None and isinstance(hv[0], ast.Call) and call_tail(hv[0]) == "mmr_select"):
+                why = f"the head `{v.left.id}` is not the MMR selection"
+        ctx.check(why is None, "C11.PERM", f"{f.qual}/head-plus-complement", f.loc(v), "the full order is the MMR head followed by every baseline index not in the head (a permutation)",
+                  f"{why}: an index picked from beyond the cut appears twice (or one is lost), so the reranked result has a duplicate episode and can exceed k")
+    sel = ctx.func("clematis.engine.stages.t2.quality_mmr:mmr_select")
+    scfg = ctx.cfg(sel)
+    app = [n for n in scfg.nodes for c in node_calls(n) if call_tail(c) == "append" and src(c.func.value) == "selected"]
+    rem = [n for n in scfg.nodes for c in node_calls(n) if call_tail(c) == "remove" and src(c.func.value) == "remaining"]
+    ok = bool(app) and bool(rem) and all(any(scfg.dominates(a, r) or scfg.dominates(r, a) for r in rem) for a in app) and all(src(node_calls(a)[0].args[0]) == src(node_calls(r)[0].args[0]) for a in app for r in rem)
+    ctx.check(ok, "C11.PERM", f"{sel.qual}/select-removes-picked", sel.loc(), "every selected index is removed from the candidates (no index is selected twice)", "a selected index stays among the candidates: it can be selected again")
+    # hybrid: work = items[:k], tail = items[k:] with the same bound
+    h = ctx.func("clematis.engine.stages.hybrid:rerank_with_gel")
+    hrd = ctx.rd(h)
+    hcfg = ctx.cfg(h)
+    lo = hi = None
+    for n in hcfg.nodes:
+        if n.kind == "stmt" and isinstance(n.ast, ast.Assign) and len(n.ast.targets) == 1 and isinstance(n.ast.targets[0], ast.Name):
+            v = n.ast.value
+            if isinstance(v, ast.Call) and dotted(v.func) == "list" and v.args:
+                v = v.args[0]
+            if isinstance(v, ast.Subscript) and src(v.value) == "items" and isinstance(v.slice, ast.Slice):
+                if n.ast.targets[0].id == "work" and v.slice.lower is None and v.slice.upper is not None:
+                    hi = src(v.slice.upper)
+                if n.ast.targets[0].id == "tail" and v.slice.upper is None and v.slice.lower is not None:
+                    lo = src(v.slice.lower)
+    ctx.check(lo is not None and lo == hi, "C11.PERM", f"{h.qual}/slice-partition", h.loc(), f"work = items[:{hi}] and tail = items[{lo}:] split the input at one bound",
+              f"work = items[:{hi}] but tail = items[{lo}:]: the reranked list drops or duplicates the items between the two bounds")
+
+
 def rule_res(ctx) -> None:
     t2 = ctx.func(T2)
     cfg = ctx.cfg(t2)
@@ -464,4 +547,5 @@ def run(ctx) -> None:
     rule_tier(ctx)
     rule_rank(ctx)
     rule_perm(ctx)
+    rule_perm_partition(ctx)
     rule_res(ctx)
